@@ -24,6 +24,9 @@ TIMERS = {
 def rule_timer(ctx, f, ty):
     target_field, rec_callee, hist_ty = TIMERS[ty]
     T = H + ty
+    a_ = f.adt(T)
+    if a_ is not None and a_.get("path"):
+        T = a_["path"]          # (the timer types may have moved to another module; every path below is relative to where the type lives now)
     # T1 constructions
     n_aggs = 0
     for k in f.order:
